@@ -11,6 +11,7 @@ import (
 	"fmt"
 	"os"
 	"sort"
+	"strings"
 
 	"verif/checks"
 	"verif/engine"
@@ -66,6 +67,20 @@ func main() {
 		if err := json.Unmarshal(b, &rf); err != nil {
 			fmt.Fprintln(os.Stderr, err)
 			os.Exit(2)
+		}
+		if rf.Kind == "" && strings.HasPrefix(rf.Class, "data-race:") {
+			// a report of the auxiliary, sampled race pass has no case to re-run: run the pass again and look for
+			// the same class (sampled: a race that is there usually shows within a few dozen runs)
+			races, ran, note := checks.ReplayRacePass(60)
+			fmt.Printf("race pass re-run: %d runs, %d distinct reports %s\n", ran, len(races), note)
+			for _, c := range races {
+				if c == rf.Class {
+					fmt.Printf("VIOLATION property=%s replay=%s\n", rf.Property, os.Args[2])
+					os.Exit(1)
+				}
+			}
+			fmt.Println("no violation on replay (the race report did not recur in this sampled re-run)")
+			return
 		}
 		res := engine.RunOne(rf.Kind, rf.Case)
 		out, _ := json.MarshalIndent(res, "", " ")
